@@ -47,7 +47,7 @@ REQ = (":strips :typing :negative-preconditions :disjunctive-preconditions :equa
 DOMAIN = """(define (domain dom)
  (:requirements {req})
  (:types {types})
-{constants} (:predicates (b) (p ?x - t) (q ?y - s) (st ?x - t))
+{constants} (:predicates (b) (p ?x - t) (q ?y - s) (st ?x - t) (e ?x - t ?y - t))
  (:functions (n) (c ?x - t){tcf}{ftype})
  (:action a1
   :parameters ({par1})
@@ -66,7 +66,7 @@ DOMAIN = """(define (domain dom)
 PROBLEM = """(define (problem prob)
  (:domain dom)
  (:objects {objects})
- (:init (st k0) (st o1) (= (c o2) 1) (= (n) 0) (= (c o1) 0) (= (c s1) 0) (= (c k0) 0){tci}{init})
+ (:init (st k0) (st o1) (e o1 o2) (= (c o2) 1) (= (n) 0) (= (c o1) 0) (= (c s1) 0) (= (c k0) 0){tci}{init})
  (:goal {goal})
 {metric})
 """
@@ -84,8 +84,8 @@ SLOTS = {
         (" (:constants k1 - t k0 - t)\n", 0),
     ],
     "ftype": [("", 1), (" - number", 1)],
-    # total-cost: declared + initialised (default) | absent | declared only
-    "tc": [("on", 1), ("off", 1), ("decl", 0)],
+    # total-cost: declared + initialised (default) | absent
+    "tc": [("on", 1), ("off", 1)],
     "objects": [
         ("o1 o2 - t s1 - s", 1),
         ("o1 - t o2 - t s1 - s", 1),
@@ -126,6 +126,10 @@ SLOTS = {
         ("()", 1),
         ("(and (st k0))", 0),
         ("(<= (- (n)) 0)", 0),
+        ("(<= (n) 0)", 1),
+        ("(>= (n) 0)", 0),
+        ("(< (n) 1)", 0),
+        ("(> 1 (n))", 0),
     ],
     "pre2": [
         ("(st k0)", 1),
@@ -145,6 +149,8 @@ SLOTS = {
         ("(and (p ?y) (not (p ?x)))", 1),
         ("(< (c ?x) (c ?y))", 1),
         ("(> (c ?x) (c ?y))", 0),
+        ("(e ?x ?y)", 1),
+        ("(e ?y ?x)", 0),
     ],
     "eff1": [
         ("(p ?x)", 1),
@@ -171,7 +177,7 @@ SLOTS = {
         ("(and (p ?x) (increase (total-cost) (+ (c ?x) 1)))", 0),
         ("(and (p ?x) (when (b) (increase (n) 1)))", 0),
         ("(and (p ?x) (assign (n) (- (n))))", 0),
-        ("(and (p ?x) (increase (n) 1) (increase (n) 1))", 0),
+        ("(and (p ?x) (increase (n) 1) (increase (n) 1))", 2),  # 2 = duplicate operands of `and`
         ("(and (not (p ?x)) (p ?x))", 1),
         ("(and (p ?x) (assign (c ?x) 2) (assign (n) 1.5))", 0),
         ("()", 0),
@@ -193,6 +199,8 @@ SLOTS = {
         ("(and (p ?x) (increase (total-cost) 1))", 1),
         ("(and (p ?x) (assign (c ?x) (c ?y)))", 0),
         ("(and (p ?x) (increase (c ?x) 1) (decrease (c ?y) 1))", 0),
+        ("(and (p ?x) (e ?y ?x))", 1),
+        ("(and (p ?x) (forall (?z - t) (when (e ?x ?z) (e ?z ?x))))", 0),
     ],
     "goal": [
         ("(p o1)", 1),
@@ -207,6 +215,7 @@ SLOTS = {
         ("(imply (b) (p o1))", 0),
         ("(p k1)", 0),
         ("(and)", 0),
+        ("(e o2 o1)", 1),
     ],
     "init": [
         ("", 1),
@@ -236,8 +245,8 @@ SLOT_NAMES = list(SLOTS) + ["init-"]
 QUICK_CORE = {
     "req": {1}, "types": {1, 3}, "constants": {1, 2}, "ftype": {1}, "tc": {1}, "objects": {1, 2},
     "par1": {1}, "par3": {1, 2},
-    "pre1": {1, 4, 5, 7, 8, 12, 16, 18, 21, 24}, "pre2": {2, 4}, "pre3": {1, 4},
-    "eff1": {2, 4, 5, 7, 8, 10, 14, 15, 19, 20}, "eff2": {1, 2}, "eff3": {1, 3},
+    "pre1": {1, 4, 5, 7, 8, 12, 16, 18, 21, 24, 28}, "pre2": {2, 4}, "pre3": {1, 4, 6},
+    "eff1": {2, 4, 5, 7, 8, 10, 14, 15, 19, 20}, "eff2": {1, 2}, "eff3": {1, 3, 6},
     "goal": {1, 2, 6}, "init": {1, 4}, "init-": set(), "metric": {1, 2},
 }
 
@@ -337,7 +346,7 @@ def shards(tier, seed):
             if cid not in seen:
                 seen.add(cid)
                 ids.append((level, cid))
-    out = su.chunk_cases(ids, seed, per_level_chunks={0: 1, 1: 16, 2: 160, 3: 640})
+    out = su.chunk_cases(ids, seed, per_level_chunks={0: 1, 1: 16, 2: 160 if tier == "quick" else 640})
     pairs = shipped_pairs()
     for i in range(0, len(pairs), 3):
         out.insert(1, {"level": 0, "files": pairs[i:i + 3]})
@@ -371,6 +380,13 @@ finalize = su.prune_supersets
 def check_case(cid, depth, acc):
     dom, prb = make_text(cid)
     lab = label(cid)
+    if any(pool(s)[i][1] == 2 for s, i in cid):
+        # package `pddl` keeps the operands of `and` in a SET: syntactically equal effects
+        # collapse inside the third-party parser (UP's converter never sees the second one)
+        acc.count("texts")
+        acc.count("outside_common_fragment")
+        acc.outcome("ai refuses: third-party parser merges duplicate operands of `and`")
+        return
     compare_texts(dom, prb, lab, {"cid": tj(cid), "depth": depth}, depth, acc)
 
 
@@ -396,6 +412,9 @@ def compare_texts(dom, prb, lab, case, depth, acc, shipped=False):
             res[kind] = None
         else:
             res[kind] = payload
+    if (res["up"] is None or res["ai"] is None) and lab == "base":
+        # vacuity guard: the base text is plain typed numeric PDDL with :constants
+        acc.violation("base-text-refused|base", "the base text is refused: up=%s ai=%s" % (res["up"] is not None, res["ai"] is not None), dict(case))
     if res["up"] is None or res["ai"] is None:
         acc.count("outside_common_fragment")
         if (res["up"] is None) != (res["ai"] is None):
@@ -433,7 +452,15 @@ def compare_texts(dom, prb, lab, case, depth, acc, shipped=False):
         elif nga > 60:
             d, max_states = 2, 40
     try:
-        r = bisim.compare(sa, sb, bisim.Renaming(), depth=d, plan_k=0 if shipped else 2, max_states=max_states)
+        # `total-cost` may survive as an ordinary fluent on one side only (the readers recognise
+        # action costs by different patterns): its meaning is compared through the metric
+        names_a = {f[0] for f in sa["fluents"]}
+        names_b = {f[0] for f in sb["fluents"]}
+        ign = ("total-cost",) if ("total-cost" in names_a) != ("total-cost" in names_b) else ()
+        if ign:
+            acc.count("total_cost_kept_as_fluent_by_one_reader")
+        r = bisim.compare(sa, sb, bisim.Renaming(), depth=d, plan_k=(1 if d > 1 else 0) if shipped else 2,
+                          max_states=max_states, ignore_fluents=ign)
     except Exception as e:
         if shipped:
             acc.outcome("shipped: reference cannot evaluate (%s)" % io.exc_name(e))
